@@ -44,6 +44,7 @@ type StoreGenCfg struct {
 	PFlipDel       float64
 	PRepeat        float64 // repeat an earlier element of the same batch
 	PRefHeavy      float64
+	PEmptyRef      float64 // chance that a reference value is an empty array
 	PNested        float64
 	PRead          float64 // token-carrying reader page
 	Readers        int
@@ -135,6 +136,9 @@ func (g *G) value(c *StoreGenCfg, depth int) any {
 }
 
 func (g *G) refValue(c *StoreGenCfg) any {
+	if c.PEmptyRef > 0 && g.P(c.PEmptyRef) {
+		return []any{} // a reference with no values (valid, unusual)
+	}
 	if g.P(0.6) {
 		return g.Pick(c.Pool)
 	}
